@@ -575,6 +575,37 @@ func runC02(w *World, r *Report) {
 		r.Check(good, "C02.skip-propagates-on-the-transition", "dagChannel.reportSkip returns true only on the transition", rs.Pos(), "the result depends on Skipped as it was on entry", "reportSkip answers true whenever the channel IS skipped, also when it already was: every further report re-enqueues the node in reportBranch, and with each successor listed once as data and once as control successor the work list doubles per node — a branch that leaves a plain chain a1 -> … -> aN -> END untaken costs 2^N (24 nodes: 7 s, 30: out of memory) although none of the nodes runs")
 	}
 
+	r.Rule("C02.skip-settles-data-predecessors-on-their-own", "reportSkip marks a skipped predecessor as settled in the data table whether or not it is also a control predecessor: the write into DataPredecessors stands under the key's presence in THAT table only — a data-only predecessor (WithNoDirectDependency) that a branch skips would otherwise stay unsettled for ever and a node that was legitimately triggered never runs ('no tasks to execute')", 1)
+	{
+		rs := w.Fn("compose", "dagChannel.reportSkip")
+		fData := w.Field("compose", "dagChannel", "DataPredecessors")
+		fCtl := w.Field("compose", "dagChannel", "ControlPredecessors")
+		n := 0
+		instrs(rs, func(in ssa.Instruction) {
+			mu, ok := in.(*ssa.MapUpdate)
+			if !ok || !isLoadOfField(mu.Map, fData) {
+				return
+			}
+			n++
+			bad := ""
+			for _, g := range guardsOf(mu.Block()) {
+				c := g.cond
+				if u, isU := c.(*ssa.UnOp); isU && u.Op == token.NOT {
+					c = u.X
+				}
+				if e, isE := c.(*ssa.Extract); isE {
+					if lk, isLk := e.Tuple.(*ssa.Lookup); isLk && isLoadOfField(lk.X, fCtl) {
+						bad = guardText(g)
+					}
+				}
+			}
+			r.Check(bad == "", "C02.skip-settles-data-predecessors-on-their-own", fmt.Sprintf("reportSkip: data-table write #%d", n), mu.Pos(), "under the key's presence in DataPredecessors only", "the write is also conditional on the control table ("+bad+"): a data-only predecessor that is skipped is never marked as settled — get waits for every DataPredecessors entry, so the target, triggered by its other control predecessor, never becomes ready")
+		})
+		if n == 0 {
+			undecidedf("C02.skip-settles-data-predecessors-on-their-own: reportSkip writes no DataPredecessors entry")
+		}
+	}
+
 	r.Rule("C02.visits-all", "the loops that hand a finished node's output and dependencies to its successors (resolveCompletedTasks, updateValues, updateDependencies, createTasks) are left only when exhausted or with an error: a duplicate or data-less target met first must not end the delivery for the targets listed after it (shared with C01 / C03)", 4)
 	ruleLoopsTotal(w, r, "C02.visits-all", []*ssa.Function{
 		w.Fn("compose", "runner.resolveCompletedTasks"), w.Fn("compose", "channelManager.updateValues"), w.Fn("compose", "channelManager.updateDependencies"), w.Fn("compose", "runner.createTasks"),
